@@ -207,6 +207,7 @@ PROPS = {
             T("TestC14LoopEnum", "fleet", 1, 1, enum=True, qshards=4, shards=8, procs=4),
             T("TestC14Stored", "kv", 6000, 1600000, shards=16, qshards=2),
             T("TestC14Shadow", "kv", 6000, 1600000, shards=16, qshards=2),
+            T("TestC14TwoSyncers", "kv", 1500, 160000, shards=16, qshards=2),
             # invariant part: every value Lightning Stream writes is re-read with the independent reader
             # inside these harnesses (shadow captures/merges/projections, native merges, all format versions)
             T("TestC11Mirror", "kv", 1500, 160000, shards=16),
